@@ -18,9 +18,10 @@ package coreutils
 //@ extern (*types.V2Transaction).MerkleLeafHash pure
 //
 // Deep copies keep the value (here: the id) and share no memory with the original.
+//@ spec func isCopy(t types.V2Transaction) bool
 //@ extern (*types.V2Transaction).DeepCopy
 //@   assigns nothing
-//@   ensures result.ID() == txn.ID()
+//@   ensures result.ID() == txn.ID() && isCopy(result)
 //
 // consensus: validators and the pool mid-state (uninterpreted; A1)
 //@ extern consensus.ValidateTransaction
